@@ -284,12 +284,16 @@ def run(ck: Checker) -> None:
     ck.guard("R-EXC-ESCAPE", lambda: r_handler_attrs(ck, [(LXP, "ASTXpath.__init__", {"ASTXpathDefinitionError"}, {"xpath"})]))
     from .c07 import r_xp_elements
     ck.guard("R-XP-ELEMENTS", lambda: r_xp_elements(ck, LXP, min_count=1))
+    from .c07 import r_step_part_kinds
+    ck.guard("R-XP-ELEMENTS", lambda: r_step_part_kinds(ck, LXP))
     from .c17 import r_reusable
     ck.guard("R-XP-ELEMENTS", lambda: r_reusable(ck, LXP))
     ck.guard("R-LEG-XPATH-SPELL", lambda: r_xpath_spell(ck))
     ck.guard("R-PRESENCE", lambda: r_legacy_presence(ck))
     from . import state_rules as S
     ck.guard("R-PRESENCE", lambda: S.r_class_attr_cache(ck, "R-PRESENCE", (LNODE,)))
+    ck.guard("R-WORKLIST", lambda: S.r_mutable_default(ck, "R-WORKLIST", (LNODE, LXP)))
+    ck.guard("R-WORKLIST", lambda: S.r_iter_once(ck, "R-WORKLIST", (LNODE, LXP)))
     from .c18 import r_leg_live_links
     ck.guard("R-LEG-IDENT", lambda: r_leg_live_links(ck))  # the traversals enumerate the live children
     ck.guard("R-XP-ANYWHERE", lambda: r_legacy_match_head(ck))
